@@ -114,7 +114,10 @@ func (p DictPattern) Bind(ctx context.Context, local Scope, value Value) (contex
 					return ctx, EmptyScope, err
 				}
 			} else {
-				dictValue = dictExpr.(Value)
+				var single bool
+				if dictValue, single = dictExpr.(Value); !single {
+					return ctx, EmptyScope, fmt.Errorf("key %s has several values in dict %s", key, dict)
+				}
 				m = m.Without(key.(Value))
 			}
 		}
